@@ -45,7 +45,7 @@ for pid in pids:
         subprocess.run(['git', '-C', '/repo', 'worktree', 'add', '--detach', wt, 'HEAD', '-q'], check=True)
         subprocess.run(['cp', '/repo/Cargo.lock', wt + '/Cargo.lock'])
     taken = []
-    for prev in 'ABCDEFGH':
+    for prev in 'ABCDEFGHIJKLMN':
         n = os.path.join(V, 'seeded', '%s-%s' % (pid, prev), 'NOTES.md')
         if os.path.exists(n):
             txt = open(n).read()
